@@ -34,6 +34,23 @@ theorem tokNat_char : ∀ n, n < 256 →
 set_option maxRecDepth 100000 in
 theorem tokNat_ne_eof : ∀ n, n < 256 → tokNat n ≠ .eof := by decide +kernel
 
+set_option maxRecDepth 100000 in
+theorem tokNat_cr : ∀ n, n < 256 → (tokNat n = .cr ↔ n = 13) := by decide +kernel
+set_option maxRecDepth 100000 in
+theorem tokNat_lf : ∀ n, n < 256 → (tokNat n = .lf ↔ n = 10) := by decide +kernel
+
+theorem tokTy_cr (b : UInt8) : tokTy b = .cr ↔ b = 13 := by
+  rw [tokTy_eq_tokNat, tokNat_cr _ b.toNat_lt]
+  constructor
+  · intro h; exact byte_eq_of_toNat (by decide) h
+  · intro h; subst h; rfl
+
+theorem tokTy_lf (b : UInt8) : tokTy b = .lf ↔ b = 10 := by
+  rw [tokTy_eq_tokNat, tokNat_lf _ b.toNat_lt]
+  constructor
+  · intro h; exact byte_eq_of_toNat (by decide) h
+  · intro h; subst h; rfl
+
 theorem tokTy_dquote (b : UInt8) : tokTy b = .dquote ↔ b = 34 := by
   rw [tokTy_eq_tokNat, tokNat_dquote _ b.toNat_lt]
   constructor
@@ -55,11 +72,15 @@ theorem tokTy_char (b : UInt8) :
 
 theorem tokTy_ne_eof (b : UInt8) : tokTy b ≠ .eof := tokNat_ne_eof _ b.toNat_lt
 
-/-- a byte is a quoted-string character for the parser unless it is `"` or `\` -/
-theorem isQuotedChar_tokTy (b : UInt8) : isQuotedChar (tokTy b) = true ↔ (b ≠ 34 ∧ b ≠ 92) := by
+/-- a byte is a quoted-string character for the parser unless it is `"`, `\`, CR or LF -/
+theorem isQuotedChar_tokTy (b : UInt8) :
+    isQuotedChar (tokTy b) = true ↔ (b ≠ 34 ∧ b ≠ 92 ∧ b ≠ 13 ∧ b ≠ 10) := by
   unfold isQuotedChar isQuotedSpecial
   have h1 := tokTy_dquote b
   have h2 := tokTy_backslash b
-  simp [← h1, ← h2]
+  have h3 := tokTy_cr b
+  have h4 := tokTy_lf b
+  have h5 := tokTy_ne_eof b
+  simp [← h1, ← h2, ← h3, ← h4, h5, and_assoc]
 
 end Gluon.Parse
